@@ -562,8 +562,9 @@ def run(tier):
     ck.assumptions += ASSUMPTIONS
     br = common.build("C12", models=("compose", "rules", "rules13"),
                       extra_targets=("theories/Properties/C12rules.vo", "theories/Properties/C12dirs.vo",
-                                     "theories/Properties/C12stream.vo", "theories/Properties/C12root.vo"))
-    ck.proofs(br, extra_files=("C12rules", "C12dirs", "C12stream", "C12root"))
+                                     "theories/Properties/C12stream.vo", "theories/Properties/C12root.vo",
+                                     "theories/Properties/C12validops.vo"))
+    ck.proofs(br, extra_files=("C12rules", "C12dirs", "C12stream", "C12root", "C12validops"))
     if not br.ok:
         return ck.finish()
     m = Model("compose")
